@@ -172,6 +172,9 @@ func runC20(r *Report, tier string) {
 	// a COSE_Sign with an unsigned slot cannot be serialised: every element
 	// passes the Signature encoder, which refuses empty signatures (R11.3)
 	checkSignMessageEncoderElems(r, "R20.3")
+	// an error from a verifier is propagated, never turned into success
+	r.rule("R03.2", "(shared with C03) every exported Verify entry point returns nil only under ok(Verifier.Verify) on the caller's verifier.")
+	checkVerifyEntryPoints(r, "R03.2")
 
 	// R20.3
 	nEnc := 0
